@@ -265,7 +265,7 @@ package align
 // ---- C04: extraction and coordinates ----
 
 //@ func (*align).SubAlign
-//@   props C04 C19
+//@   props C04 C19 C01
 //@   arith wrap64
 //@   requires wfa(a)
 //@   ensures (err == nil) == (0 <= start && 0 <= length && start + length <= a.length)
@@ -284,7 +284,7 @@ package align
 //@ pure func sitesok(a *align, sites []int) bool = forall j :: 0 <= j && j < len(sites) ==> 0 <= sites[j] && sites[j] < a.length
 
 //@ func (*align).SelectSites
-//@   props C04 C19
+//@   props C04 C19 C01
 //@   requires wfa(a)
 //@   ensures (err == nil) == sitesok(a, sites)
 //@   ensures err == nil ==> subalign != nil && fresh(subalign) && wfa(subalign) && nrows(subalign) == nrows(a) && (nrows(a) > 0 ==> subalign.length == len(sites))
@@ -512,7 +512,7 @@ package align
 
 // Transpose: row `site` of the result is column `site` of the input (named by its decimal index)
 //@ func (*align).Transpose
-//@   props C04 C19
+//@   props C04 C19 C01
 //@   requires wfa(a)
 //@   ensures err == nil && t != nil && fresh(t) && wfa(t) && nrows(t) == (a.length < 0 ? 0 : a.length) && (a.length > 0 ==> t.length == nrows(a))
 //@   ensures forall s, r :: 0 <= s && s < a.length && 0 <= r && r < nrows(a) ==> cell(t, s, r) == cell(a, r, s)
